@@ -923,6 +923,9 @@ impl Engine for C13 {
             "probe.app_path_several_files_one_loader",
             "fault.legal_short_writes",
             "fault.run_killed_while_it_wrote_the_cache",
+            "probe.run_in_the_same_long_lived_process_as_the_previous_one",
+            "probe.same_process_same_day_and_the_days_rate_was_published_in_between",
+            "probe.cache_directory_is_a_symbolic_link",
         ]
     }
 }
